@@ -96,86 +96,86 @@ theorem precClimb_mono : ∀ (f : Nat) (n : Ref) (pos : Nat) (r : Res (Ref × Na
       | none => rw [hp] at h; exact h
       | some p => rw [hp] at h; exact precClimb_mono f p 0 r h hne
 
-theorem folIter_mono (a : AxisInfo) : ∀ (f : Nat) (node : Ref) (q : Option PQ) (cur : Ref)
-    (r : Res (Ref × (Ref × Option PQ) × Nat) × Ref),
-    folIter d cfg a f node q cur = r → r.1 ≠ .fuel → folIter d cfg a (f+1) node q cur = r
-  | 0, _, _, _, r, h, hne => by simp only [folIter] at h; subst h; exact absurd rfl hne
-  | f+1, node, none, cur, r, h, hne => by
+theorem folIter_mono (a : AxisInfo) : ∀ (f : Nat) (node : Ref) (q : Option PQ)
+    (r : Res (Ref × (Ref × Option PQ) × Nat)),
+    folIter d cfg a f node q = r → r ≠ .fuel → folIter d cfg a (f+1) node q = r
+  | 0, _, _, r, h, hne => by simp only [folIter] at h; exact absurd h.symm hne
+  | f+1, node, none, r, h, hne => by
     rw [folIter] at h ⊢
     cases hc : folClimb d f node with
-    | fuel => rw [hc] at h; subst h; exact absurd rfl hne
+    | fuel => rw [hc] at h; exact absurd h.symm hne
     | done => rw [hc] at h; rw [folClimb_mono d f node _ hc (by simp)]; exact h
     | yield m =>
       rw [hc] at h; rw [folClimb_mono d f node _ hc (by simp)]
-      exact folIter_mono a f m _ m r h hne
-  | f+1, node, some q, cur, r, h, hne => by
+      exact folIter_mono a f m _ r h hne
+  | f+1, node, some q, r, h, hne => by
     rw [folIter] at h ⊢
-    cases hs : PQ.select d cfg cur f q with
+    cases hs : PQ.select d cfg node f q with
     | mk o q' =>
       rw [hs] at h
       cases o with
-      | fuel => simp only at h; subst h; exact absurd rfl hne
+      | fuel => simp only at h; exact absurd h.symm hne
       | done =>
-        rw [select_mono d cfg cur f q _ _ hs (by simp)]
+        rw [select_mono d cfg node f q _ _ hs (by simp)]
         simp only at h ⊢
-        exact folIter_mono a f node none cur r h hne
+        exact folIter_mono a f node none r h hne
       | yield j =>
-        rw [select_mono d cfg cur f q _ _ hs (by simp)]
+        rw [select_mono d cfg node f q _ _ hs (by simp)]
         exact h
 
-theorem precIter_mono (a : AxisInfo) : ∀ (f : Nat) (node : Ref) (q : Option PQ) (pos : Nat) (cur : Ref)
-    (r : Res (Ref × (Ref × Option PQ) × Nat) × Ref),
-    precIter d cfg a f node q pos cur = r → r.1 ≠ .fuel → precIter d cfg a (f+1) node q pos cur = r
-  | 0, _, _, _, _, r, h, hne => by simp only [precIter] at h; subst h; exact absurd rfl hne
-  | f+1, node, none, pos, cur, r, h, hne => by
+theorem precIter_mono (a : AxisInfo) : ∀ (f : Nat) (node : Ref) (q : Option PQ) (pos : Nat)
+    (r : Res (Ref × (Ref × Option PQ) × Nat)),
+    precIter d cfg a f node q pos = r → r ≠ .fuel → precIter d cfg a (f+1) node q pos = r
+  | 0, _, _, _, r, h, hne => by simp only [precIter] at h; exact absurd h.symm hne
+  | f+1, node, none, pos, r, h, hne => by
     rw [precIter] at h ⊢
     cases hc : precClimb d f node pos with
-    | fuel => rw [hc] at h; subst h; exact absurd rfl hne
+    | fuel => rw [hc] at h; exact absurd h.symm hne
     | done => rw [hc] at h; rw [precClimb_mono d f node pos _ hc (by simp)]; exact h
     | yield mp =>
       obtain ⟨m, p'⟩ := mp
       rw [hc] at h; rw [precClimb_mono d f node pos _ hc (by simp)]
-      exact precIter_mono a f m _ p' m r h hne
-  | f+1, node, some q, pos, cur, r, h, hne => by
+      exact precIter_mono a f m _ p' r h hne
+  | f+1, node, some q, pos, r, h, hne => by
     rw [precIter] at h ⊢
-    cases hs : PQ.select d cfg cur f q with
+    cases hs : PQ.select d cfg node f q with
     | mk o q' =>
       rw [hs] at h
       cases o with
-      | fuel => simp only at h; subst h; exact absurd rfl hne
+      | fuel => simp only at h; exact absurd h.symm hne
       | done =>
-        rw [select_mono d cfg cur f q _ _ hs (by simp)]
+        rw [select_mono d cfg node f q _ _ hs (by simp)]
         simp only at h ⊢
-        exact precIter_mono a f node none pos cur r h hne
+        exact precIter_mono a f node none pos r h hne
       | yield j =>
-        rw [select_mono d cfg cur f q _ _ hs (by simp)]
+        rw [select_mono d cfg node f q _ _ hs (by simp)]
         exact h
 
-theorem folCall_mono (a : AxisInfo) (sib : Bool) (f : Nat) (k : Ref × Option PQ) (pos : Nat) (cur : Ref)
-    (r : Res (Ref × (Ref × Option PQ) × Nat) × Ref)
-    (h : folCall d cfg a sib f k pos cur = r) (hne : r.1 ≠ .fuel) : folCall d cfg a sib (f+1) k pos cur = r := by
+theorem folCall_mono (a : AxisInfo) (sib : Bool) (f : Nat) (k : Ref × Option PQ) (pos : Nat)
+    (r : Res (Ref × (Ref × Option PQ) × Nat))
+    (h : folCall d cfg a sib f k pos = r) (hne : r ≠ .fuel) : folCall d cfg a sib (f+1) k pos = r := by
   cases sib with
   | false =>
     simp only [folCall, Bool.false_eq_true, if_false] at h ⊢
-    exact folIter_mono d cfg a f k.1 k.2 cur r h hne
+    exact folIter_mono d cfg a f k.1 k.2 r h hne
   | true =>
     simp only [folCall, if_true] at h ⊢
     cases hc : childIter d (test d cfg a) f k.1 false with
-    | fuel => rw [hc] at h; subst h; exact absurd rfl hne
+    | fuel => rw [hc] at h; exact absurd h.symm hne
     | done => rw [hc] at h; rw [childIter_mono d f k.1 false _ hc (by simp)]; exact h
     | yield j => rw [hc] at h; rw [childIter_mono d f k.1 false _ hc (by simp)]; exact h
 
-theorem precCall_mono (a : AxisInfo) (sib : Bool) (f : Nat) (k : Ref × Option PQ) (pos : Nat) (cur : Ref)
-    (r : Res (Ref × (Ref × Option PQ) × Nat) × Ref)
-    (h : precCall d cfg a sib f k pos cur = r) (hne : r.1 ≠ .fuel) : precCall d cfg a sib (f+1) k pos cur = r := by
+theorem precCall_mono (a : AxisInfo) (sib : Bool) (f : Nat) (k : Ref × Option PQ) (pos : Nat)
+    (r : Res (Ref × (Ref × Option PQ) × Nat))
+    (h : precCall d cfg a sib f k pos = r) (hne : r ≠ .fuel) : precCall d cfg a sib (f+1) k pos = r := by
   cases sib with
   | false =>
     simp only [precCall, Bool.false_eq_true, if_false] at h ⊢
-    exact precIter_mono d cfg a f k.1 k.2 pos cur r h hne
+    exact precIter_mono d cfg a f k.1 k.2 pos r h hne
   | true =>
     simp only [precCall, if_true] at h ⊢
     cases hc : precSibIter d (test d cfg a) f k.1 with
-    | fuel => rw [hc] at h; subst h; exact absurd rfl hne
+    | fuel => rw [hc] at h; exact absurd h.symm hne
     | done => rw [hc] at h; rw [precSibIter_mono d f k.1 _ hc (by simp)]; exact h
     | yield j => rw [hc] at h; rw [precSibIter_mono d f k.1 _ hc (by simp)]; exact h
 
@@ -358,30 +358,24 @@ theorem select_mono2 : ∀ (f : Nat) (q : PQ2) (c : Ref) (o : Res Ref) (q' : PQ2
       | some nq =>
         obtain ⟨node, q⟩ := nq
         simp only [PQ2.select] at h ⊢
-        cases hr : folCall d cfg a sib f (node, q) pos c with
-        | mk o1 c1 =>
-          rw [hr] at h
-          cases o1 with
-          | fuel => simp only at h; injection h with h1 _; exact absurd h1.symm hne
-          | done =>
-            rw [folCall_mono d cfg a sib f _ pos c _ hr (by simp)]
-            simp only at h ⊢; exact ih _ _ _ _ _ h hne
-          | yield jkp => rw [folCall_mono d cfg a sib f _ pos c _ hr (by simp)]; exact h
+        cases hr : folCall d cfg a sib f (node, q) pos with
+        | fuel => rw [hr] at h; simp only at h; injection h with h1 _; exact absurd h1.symm hne
+        | done =>
+          rw [hr] at h; rw [folCall_mono d cfg a sib f _ pos _ hr (by simp)]
+          simp only at h ⊢; exact ih _ _ _ _ _ h hne
+        | yield jkp => rw [hr] at h; rw [folCall_mono d cfg a sib f _ pos _ hr (by simp)]; exact h
     | preceding a sib inp it pos =>
       cases it with
       | none => mono_pull ih h hne f inp c
       | some nq =>
         obtain ⟨node, q⟩ := nq
         simp only [PQ2.select] at h ⊢
-        cases hr : precCall d cfg a sib f (node, q) pos c with
-        | mk o1 c1 =>
-          rw [hr] at h
-          cases o1 with
-          | fuel => simp only at h; injection h with h1 _; exact absurd h1.symm hne
-          | done =>
-            rw [precCall_mono d cfg a sib f _ pos c _ hr (by simp)]
-            simp only at h ⊢; exact ih _ _ _ _ _ h hne
-          | yield jkp => rw [precCall_mono d cfg a sib f _ pos c _ hr (by simp)]; exact h
+        cases hr : precCall d cfg a sib f (node, q) pos with
+        | fuel => rw [hr] at h; simp only at h; injection h with h1 _; exact absurd h1.symm hne
+        | done =>
+          rw [hr] at h; rw [precCall_mono d cfg a sib f _ pos _ hr (by simp)]
+          simp only at h ⊢; exact ih _ _ _ _ _ h hne
+        | yield jkp => rw [hr] at h; rw [precCall_mono d cfg a sib f _ pos _ hr (by simp)]; exact h
     | self a inp =>
       simp only [PQ2.select] at h ⊢
       cases hr : PQ2.select d cfg dec f inp c with
@@ -413,7 +407,7 @@ theorem select_mono2 : ∀ (f : Nat) (q : PQ2) (c : Ref) (o : Res Ref) (q' : PQ2
           | some p => rw [hp] at h; exact h
           | none => rw [hp] at h; simp only at h ⊢; exact ih _ _ _ _ _ h hne
     | filter inp pred pos pm =>
-      simp only [PQ2.select] at h ⊢
+      rw [PQ2.select_filter] at h ⊢
       cases hr : PQ2.select d cfg dec f inp c with
       | mk o1 rest =>
         obtain ⟨inp1, c1⟩ := rest
@@ -426,7 +420,16 @@ theorem select_mono2 : ∀ (f : Nat) (q : PQ2) (c : Ref) (o : Res Ref) (q' : PQ2
           simp only at h ⊢
           by_cases ht : dec pred x = true
           · simp only [ht, if_true] at h ⊢; exact h
-          · simp only [ht, if_false, Bool.false_eq_true] at h ⊢; exact ih _ _ _ _ _ h hne
+          · simp only [ht, if_false, Bool.false_eq_true] at h ⊢
+            cases hr2 : PQ2.select d cfg dec f (.filter inp1 pred pos (some (pm.getD []))) x with
+            | mk o2 rest2 =>
+              obtain ⟨q2, c2⟩ := rest2
+              rw [hr2] at h
+              simp only [Prod.mk.injEq] at h
+              obtain ⟨h1, h2, h3⟩ := h
+              subst h1
+              rw [ih _ _ _ _ _ hr2 hne]
+              simp only [h2, h3]
     | group inp pos =>
       simp only [PQ2.select] at h ⊢
       cases hr : PQ2.select d cfg dec f inp c with
